@@ -1263,6 +1263,38 @@ func vfGenMem(r *vfRand) *vfProg {
 	return &vfProg{kind: "mem", code: a.bytes(), input: vfGenInput(r), gas: uint64(r.Pick(100000, 2000000, 30000000))}
 }
 
+// SOURCE offsets of the copy/load instructions at and beyond the 64-bit boundary: the 256-bit data
+// offset must saturate (zero padding), not wrap to its low 64 bits. Memory offset and length stay
+// small so that the copied bytes are actually returned and compared with the reference.
+func vfGenDataOff(r *vfRand) *vfProg {
+	input := r.Bytes(r.Pick(33, 40, 64, 70))
+	for i := range input {
+		input[i] |= 1 // no zero bytes: zero padding and real data are told apart
+	}
+	low := int64(r.Pick(0, 0, 1, 2, 31, 32, len(input)-1, len(input), len(input)+1))
+	base := []*big.Int{vfPow2(64), vfPow2(64), vfPow2(65), vfPow2(96), vfPow2(128), vfPow2(192), vfPow2(255),
+		new(big.Int).Sub(vfTwo256, vfPow2(64)), vfPow2(63), vfPow2(32), big.NewInt(0)}[r.Intn(11)]
+	off := new(big.Int).Add(base, big.NewInt(low))
+	if r.Chance(10) {
+		off = new(big.Int).Sub(vfTwo256, big.NewInt(1+int64(r.Intn(3))))
+	}
+	ln := uint64(r.Pick(1, 31, 32, 33, 64))
+	mo := uint64(r.Pick(0, 0, 1, 32))
+	a := vfNewAsm()
+	switch r.Intn(6) {
+	case 0, 1, 2: // CALLDATACOPY
+		a.pushU(ln).push(off).pushU(mo).op(0x37)
+	case 3: // CODECOPY
+		a.pushU(ln).push(off).pushU(mo).op(0x39)
+	case 4: // EXTCODECOPY of the executing contract's own address
+		a.pushU(ln).push(off).pushU(mo).op(0x30, 0x3c)
+	default: // CALLDATALOAD, stored to memory
+		a.push(off).op(0x35).pushU(mo).op(0x52)
+	}
+	a.pushU(128).pushU(0).op(0xf3)
+	return &vfProg{kind: "dataoff", code: a.bytes(), input: input, gas: 200000}
+}
+
 // jumps into push data, to valid / invalid destinations
 func vfGenJump(r *vfRand) *vfProg {
 	// layout: [PUSHn target] [cond] JUMP|JUMPI ; filler ; PUSHk <data containing 0x5b> ; JUMPDEST ; PUSH1 1 PUSH1 0 SSTORE ; STOP
@@ -1783,8 +1815,10 @@ func TestVerifC10(t *testing.T) {
 			p = vfGenAlu(r)
 		case k < 72:
 			p = vfGenStack(r)
-		case k < 78:
+		case k < 75:
 			p = vfGenMem(r)
+		case k < 78:
+			p = vfGenDataOff(r)
 		case k < 84:
 			p = vfGenJump(r)
 		case k < 91:
